@@ -131,7 +131,7 @@ fn opt(o: Option<Sexp>) -> Sexp {
 }
 
 /// pre ++ ?query ++ #fragment
-fn url_string(pre: &Sexp, q: &Sexp, f: &Sexp) -> String {
+pub fn url_string(pre: &Sexp, q: &Sexp, f: &Sexp) -> String {
     let mut s = text(pre);
     if let Some(q) = q.list().first() {
         s.push('?');
